@@ -45,3 +45,115 @@ Print Assumptions check_run.
 (** Non-vacuity: a concrete clean pair meets the premises ("a b c" vs "ab c"). *)
 Example premise_witness : premiseb [[97];[32];[98];[32];[99]]%N [[97];[98];[32];[99]]%N = true.
 Proof. vm_compute. reflexivity. Qed.
+
+(** ** grapheme mode with the segmenter inside the model ([segment], UAX29_Model.v, tied to
+    unicode-segmentation by this property's and C11's correspondence): the cluster lists are
+    [segment] of the strings, "no mixed cluster" is the decidable [no_mixedb], and the KF1 seam
+    class is characterised by [seam_safe]. *)
+From TU Require Import UAX29_Model C10_Seam C10_UAX29.
+From TU Require C11_Model.
+
+(** the cluster-level theorems above, with premises on the strings and one cluster-level premise *)
+Theorem ops_roundtrip_u : forall f t : str,
+  C11_Model.cleansb f = true -> C11_Model.cleansb t = true ->
+  no_mixedb f = true -> no_mixedb t = true ->
+  strip (segment f) = strip (segment t) ->
+  exists ops, operations (segment f) (segment t) = Some ops
+              /\ length ops = length (segment f)
+              /\ repair (segment f) ops = Some t.
+Proof. exact ops_roundtrip_u_l. Qed.
+Print Assumptions ops_roundtrip_u.
+
+Theorem repair_only_ws_u : forall s os,
+  length os = length (segment s) -> exists r, repair (segment s) os = Some r /\ strip_cp r = strip_cp s.
+Proof. exact repair_only_ws_u_l. Qed.
+Print Assumptions repair_only_ws_u.
+
+Theorem repair_keep_u : forall s os,
+  length os = length (segment s) -> all_keep os = true -> repair (segment s) os = Some s.
+Proof. exact repair_keep_u_l. Qed.
+Print Assumptions repair_keep_u.
+
+(** [cf_break a b]: a boundary between [a] and [b] in every context — sound ... *)
+Theorem cf_break_split : forall a b u v,
+  cf_break a b = true ->
+  segment ((u ++ [a]) ++ b :: v) = segment (u ++ [a]) ++ segment (b :: v).
+Proof. exact C10_UAX29.cf_break_split. Qed.
+Print Assumptions cf_break_split.
+
+(** ... and exact: otherwise some text before [a] puts [a] and [b] into one cluster, whatever follows *)
+Theorem cf_break_exact : forall a b,
+  cf_break a b = false ->
+  exists u, forall v, exists cl l1 l2,
+    In cl (segment ((u ++ [a]) ++ b :: v)) /\ cl = l1 ++ a :: b :: l2.
+Proof. exact cf_break_exact_l. Qed.
+Print Assumptions cf_break_exact.
+
+(** [seam_ok a b] = context-free boundaries a | b, a | SPACE and SPACE | b *)
+Theorem seam_ok_spec : forall a b,
+  seam_ok a b = (cf_break a 32 && cf_break 32%N b && cf_break a b)%bool.
+Proof. exact seam_ok_cf. Qed.
+Print Assumptions seam_ok_spec.
+
+(** a clean seam-safe text has no mixed cluster, and its non-whitespace clusters are the
+    clusters of the text without whitespace (SeamStable for deleting all spaces) *)
+Theorem seam_safe_no_mixed : forall s,
+  C11_Model.cleansb s = true -> seam_safe s = true -> no_mixedb s = true.
+Proof. exact ss_no_mixed. Qed.
+Print Assumptions seam_safe_no_mixed.
+
+Theorem seam_safe_strip : forall s,
+  C11_Model.cleansb s = true -> seam_safe s = true -> strip (segment s) = segment (strip_cp s).
+Proof. exact ss_strip. Qed.
+Print Assumptions seam_safe_strip.
+
+(** the string-level premise of the property gives the cluster-level premise ... *)
+Theorem seam_safe_premise : forall f t,
+  C11_Model.cleansb f = true -> C11_Model.cleansb t = true -> strip_cp f = strip_cp t ->
+  seam_safe f = true -> seam_safe t = true ->
+  Clean (segment f) /\ Clean (segment t) /\ strip (segment f) = strip (segment t).
+Proof. exact seam_safe_premise_l. Qed.
+Print Assumptions seam_safe_premise.
+
+(** ... so the round trip holds with premises on the two strings alone: no cluster-level
+    premise, no segmentation oracle, no SeamStable *)
+Theorem operations_repair_roundtrip_u : forall f t,
+  C11_Model.cleansb f = true -> C11_Model.cleansb t = true -> strip_cp f = strip_cp t ->
+  seam_safe f = true -> seam_safe t = true ->
+  exists ops, operations (segment f) (segment t) = Some ops
+              /\ length ops = length (segment f)
+              /\ repair (segment f) ops = Some t.
+Proof. exact operations_repair_roundtrip_u_l. Qed.
+Print Assumptions operations_repair_roundtrip_u.
+
+(** the domain of that theorem and the KF1 class (string-level premise, no mixed cluster,
+    different non-whitespace cluster lists) are disjoint *)
+Theorem kf1_outside : forall f t, dom_C10 f t = true -> kf1b f t = false.
+Proof. exact kf1_outside_l. Qed.
+Print Assumptions kf1_outside.
+
+(** the input built by the model alone (both cluster lists, the class flag and the seam flag)
+    passes the executable statement, the segmentation clause and the cross-check of [agree] *)
+Theorem check_run_u : forall f t rops,
+  kf1b f t = false ->
+  check_C10 (input_of f t rops) (run_C10 (input_of f t rops)) = true
+  /\ uax29_agree (input_of f t rops) = true /\ xcheck (input_of f t rops) = true.
+Proof. exact check_run_u_l. Qed.
+Print Assumptions check_run_u.
+
+(** non-vacuity: "a e\u{301} b" / "ae\u{301} b" is in the domain; the KF1 witnesses are not
+    seam-safe: flag halves, Hangul L + V, consonant + virama | consonant, e | U+0301,
+    Prepend | a, woman ZWJ | laptop *)
+Example dom_witness : dom_C10 [97;32;101;769;32;98]%N [97;101;769;32;98]%N = true.
+Proof. vm_compute. reflexivity. Qed.
+Example kf1_not_seam_safe :
+  seam_safe [127465;32;127466]%N = false /\ seam_safe [4352;32;4449]%N = false
+  /\ seam_safe [2325;2381;32;2359]%N = false /\ seam_safe [101;32;769]%N = false
+  /\ seam_safe [1536;32;97]%N = false /\ seam_safe [128105;8205;32;128187]%N = false
+  /\ kf1b [127465;32;127466]%N [127465;127466]%N = true.
+Proof. vm_compute. repeat split; reflexivity. Qed.
+(** letters, a consonant after a letter, an emoji after a letter, Hangul syllable | letter: seam-safe *)
+Example seam_ok_witness :
+  seam_ok 97 98 = true /\ seam_ok 97 2325 = true /\ seam_ok 97 128512 = true /\ seam_ok 44032 97 = true
+  /\ cf_break 2381 2325 = false /\ cf_break 8204 2325 = true.
+Proof. vm_compute. repeat split; reflexivity. Qed.
